@@ -144,6 +144,7 @@ pub fn required_probes(property: &str) -> Vec<&'static str> {
         "C14" => vec!["c14_reload_happened", "c14_console_compared", "c14_transaction_straddled_reload", "c14_new_definition_used", "c14_removed_pool_refused", "c14_added_pool_served", "c14_pool_of_rejected_config_refused"],
         "C18" => vec!["c18_sample_at_barrier", "c18_final_sample", "c18_totals_compared", "c18_monotone_compared"],
         "C09" => vec!["c09_md5_challenge_seen", "c09_valid_login", "c09_attack_wrong", "c09_attack_replay", "c09_attack_truncated", "c09_attack_hash_empty", "c09_attack_othermsg", "c09_attack_unknown_user", "c09_attack_admin_wrong", "c09_attack_old_password_after_change", "c09_valid_login_admitted", "c09_login_during_shutdown", "c09_attack_late_correct"],
+        "C10" => vec!["c10_cancel_at_backend", "c10_cancel_hit_own_statement", "c10_running_statement_cancelled", "c10_unknown_key_sent", "c10_idle_target_no_contact", "c10_departed_target_no_contact"],
         "C16" => vec!["c16_pause_interval", "c16_txn_sent_while_paused", "c16_client_held_then_released", "yield:pool.wait_paused.between"],
         "C08" => vec!["c08_execute_checked", "c08_execute_on_reused_connection", "c08_eviction_close_sent", "c08_reference_compared_steps"],
         _ => vec![],
@@ -420,6 +421,7 @@ fn rule_of(property: &str) -> String {
         "C14" => "old/new configuration pairs (unchanged, pool added, pool removed, servers changed, general setting changed, new pool whose server is down at reload time; syntactically invalid, three semantically invalid kinds, missing, unreadable, truncated), reload by admin RELOAD, SIGHUP and autoreload; workers of an unchanged pool with a transaction straddling the reload, workers of the changed/removed pool, clients arriving after the acknowledgement; yield point before POOLS.store",
         "C18" => "holders (inside a transaction), workers, never-used and failed-login clients, clients kicked at the checkout failure limit; clean and abrupt exits, also while holding a server; a barrier at which everybody is parked and the admin reads SHOW CLIENTS/SERVERS/POOLS/LISTS/STATS, and a second reading after everybody left",
         "C09" => "honest clients (MD5 cleartext secret, auth_query secret, trust user, admin) next to attackers: wrong password, replay of a response captured from an honest client of the same run, truncated and oversized responses, a Query in place of the password, EOF and silence in the handshake, the empty-secret answer, unknown user/database, another user's password, admin database with wrong or application credentials; every attacker keeps sending tagged queries afterwards; auth_query runs also change the secret on the servers mid-run and boot with the lookup role unable to log in; a quarter of the runs raise SIGINT while a transaction is open and send logins with valid and invalid credentials afterwards",
+        "C10" => "2-5 runners with sleeping statements (simple and extended, bare and inside transactions), idle periods and departures inside a transaction over pools of 1-2 connections per server with 0-2 replicas, both pool modes; 1-3 cancellers sending CancelRequests with the target's key while its statement runs, 0-3 ms and 150-600 ms after its transaction ended, after it left, and with a wrong secret, wrong pid or random key; a late victim with long statements on the reused connections; yield sites after claim and before release",
         "C16" => "PAUSE/RESUME cycles (global or per pool) by an admin client; workers running throughout, clients that are idle when the pause begins, clients arriving after the PAUSE acknowledgement, mid-transaction clients; both pool modes; random subset of the yield sites inside wait_paused and between wait_paused and checkout; RESUME at PRNG times including right after a held client's message went out",
         "C12" => "2-5 clients sharing 1-2 server connections; startup parameter sets and SET sequences of tracked and untracked parameters; every fourth run uses hostile values (quotes, backslashes, non-ASCII, empty)",
         _ => "see DESIGN.md",
